@@ -31,6 +31,19 @@
 //	                                                      a Finished AND the secret it used equals, byte for byte, the
 //	                                                      one of the session in the client's cache
 //
+//	enckey=0|1                                            the peer holds the private key that belongs to the
+//	                                                      encryption certificate it presented (scenario ground truth,
+//	                                                      checked by comparing public keys)
+//
+// `rand=<kind>`: Config.Rand of the client (and of the peer) is an io.Reader that is perfectly
+// legal but does not fill the buffer in one call: `byte` one byte per call, `half` half of what was
+// asked for, `stutter` zero-length reads alternating with one byte per call.  The reader logs what
+// it hands out.  With it the line carries `pmsseen=0|1` (the driver found a ClientKeyExchange of an
+// ECC suite on the wire and opened it with the private key of the presented encryption certificate,
+// which the driver — not necessarily the peer — owns) and `rfirst=<k>|-` (bytes delivered by the
+// first call that asked for the 46 random bytes of the pre-master secret); the observation carries
+// `pms=<n>|-`: how many leading bytes of the 46 are a contiguous run of the reader's output.
+//
 // The Lean oracle predicts the observation from the vector (model) and judges
 // "completed ⇒ Authenticated" (spec).
 package main
@@ -38,6 +51,7 @@ package main
 import (
 	"bytes"
 	"crypto"
+	"crypto/ecdsa"
 	"errors"
 	"fmt"
 	"os"
@@ -120,6 +134,10 @@ type scenario struct {
 	// Config.ServerName of the client when not the default DNS name (the documentation allows
 	// "the DNS name or IP in the certificate")
 	cname string
+	// an impostor without the key-exchange private key that, instead of giving up, tries the
+	// low-entropy pre-master secrets (version ‖ one unknown byte ‖ zeros, version ‖ one byte
+	// repeated) against the client's Finished record
+	guess bool
 }
 
 var catalogue = []scenario{
@@ -158,6 +176,8 @@ var catalogue = []scenario{
 	{name: "script-honest", peer: "script", chain: []string{"srvsig", "srvenc"}, group: "B"},
 	{name: "script-skx-other-key", peer: "script", chain: []string{"srvsig", "srvenc"}, sigKey: "othsig", group: "B"},
 	{name: "script-no-enc-key", peer: "script", chain: []string{"srvsig", "srvenc"}, encKey: "srv2enc", group: "B"},
+	{name: "script-no-enc-key-guess", peer: "script", chain: []string{"srvsig", "srvenc"}, encKey: "srv2enc", guess: true, only: "ecc", group: "B"},
+	{name: "script-untrusted-no-enc-key-guess", peer: "script", chain: []string{"othsig", "srvenc"}, encKey: "srv2enc", guess: true, only: "ecc", group: "B"},
 	{name: "skx-omitted", peer: "script", chain: []string{"srvsig", "srvenc"}, skx: "omit", group: "B"},
 	{name: "skx-omitted-no-sig-key", peer: "script", chain: []string{"srvsig", "srvenc"}, sigKey: "othsig", skx: "omit", group: "B"},
 	{name: "skx-replayed", peer: "script", chain: []string{"srvsig", "srvenc"}, skx: "replay", group: "B"},
@@ -271,6 +291,7 @@ type caseDesc struct {
 	stack, suite, scen string
 	skip               bool
 	cb                 string // "" = "--": no callback installed
+	rnd                string // "" = Config.Rand nil (crypto/rand); else a kind of randKinds
 }
 
 func (c caseDesc) key() string {
@@ -278,7 +299,139 @@ func (c caseDesc) key() string {
 	if c.cb != "" && c.cb != "--" {
 		k += " cb=" + c.cb
 	}
+	if c.rnd != "" {
+		k += " rand=" + c.rnd
+	}
 	return k
+}
+
+// ---------------------------------------------------------------------------- entropy sources
+
+// randKinds: Config.Rand readers that are legal io.Readers (n <= len(p), nil error, progress
+// within two calls) but never fill a buffer of more than one byte in one call.
+var randKinds = []string{"byte", "half", "stutter"}
+
+func validRand(k string) bool {
+	if k == "" {
+		return true
+	}
+	for _, x := range randKinds {
+		if x == k {
+			return true
+		}
+	}
+	return false
+}
+
+// logRand hands out crypto/rand bytes in the manner of its kind and keeps what it handed out.
+type logRand struct {
+	mu      sync.Mutex
+	kind    string
+	calls   int
+	out     []byte
+	first46 int // bytes delivered by the first call that asked for 46 bytes; -1: no such call
+}
+
+func newLogRand(kind string) *logRand {
+	if kind == "" {
+		return nil
+	}
+	return &logRand{kind: kind, first46: -1}
+}
+
+func (r *logRand) Read(p []byte) (int, error) {
+	r.mu.Lock()
+	defer r.mu.Unlock()
+	r.calls++
+	n := len(p)
+	switch r.kind {
+	case "byte":
+		if n > 1 {
+			n = 1
+		}
+	case "half":
+		n = (n + 1) / 2
+	case "stutter":
+		if r.calls%2 == 1 {
+			n = 0
+		} else if n > 1 {
+			n = 1
+		}
+	}
+	if _, err := randRead(p[:n]); err != nil {
+		return 0, err
+	}
+	if len(p) == 46 && r.first46 < 0 {
+		r.first46 = n
+	}
+	r.out = append(r.out, p[:n]...)
+	return n, nil
+}
+
+// longestRun: the largest k such that want[:k] occurs as a contiguous run in stream.
+func longestRun(stream, want []byte) int {
+	best := 0
+	for i := range stream {
+		k := 0
+		for k < len(want) && i+k < len(stream) && stream[i+k] == want[k] {
+			k++
+		}
+		if k > best {
+			best = k
+		}
+	}
+	return best
+}
+
+// preMasterSeen: the pre-master secret of an ECC suite as the driver reads it off the wire — the
+// ClientKeyExchange opened with the private key that belongs to the encryption certificate the
+// peer PRESENTED (the driver made every key pair of the catalogue; whether the peer holds that
+// key is another matter).
+func preMasterSeen(su suiteInfo, c2s, s2c flightView) []byte {
+	if su.ecdhe {
+		return nil
+	}
+	ckx, cert := c2s.last(hsClientKeyExchange), s2c.last(hsCertificate)
+	if ckx == nil || cert == nil || len(ckx.body) < 2 {
+		return nil
+	}
+	ders, ok := certList(cert)
+	if !ok || len(ders) < 2 {
+		return nil
+	}
+	l := leaves[leafName(ders[1])]
+	if l == nil {
+		return nil
+	}
+	dec, isDec := l.Key.(crypto.Decrypter)
+	n := int(ckx.body[0])<<8 | int(ckx.body[1])
+	if !isDec || len(ckx.body) != 2+n {
+		return nil
+	}
+	var pm []byte
+	if p := hx.Guard(func() { pm, _ = dec.Decrypt(cryptoRand{}, ckx.body[2:], sm2.ASN1DecrypterOpts) }); p != "" || len(pm) != 48 {
+		return nil
+	}
+	return pm
+}
+
+// holdsKeyOf: does priv belong to the public key of the certificate der?
+func holdsKeyOf(priv crypto.PrivateKey, der []byte) bool {
+	c, err := smx509.ParseCertificate(der)
+	if err != nil {
+		return false
+	}
+	pk, ok := priv.(interface{ Public() crypto.PublicKey })
+	if !ok {
+		return false
+	}
+	switch pub := pk.Public().(type) {
+	case *ecdsa.PublicKey:
+		return pub.Equal(c.PublicKey)
+	case interface{ Equal(crypto.PublicKey) bool }:
+		return pub.Equal(c.PublicKey)
+	}
+	return false
 }
 
 // callback configurations of the client: VerifyPeerCertificate x VerifyConnection, each
@@ -336,13 +489,29 @@ type verdicts struct {
 	sess                         string // "none" or n:sig:enc
 	sresume, sfin                bool
 	sevict, psecret              string // resumption impostors only ("" = not printed)
+	enckey                       bool
+	rnd                          bool // a logging reader was configured: print pmsseen / rfirst
+	pmsseen                      bool
+	rfirst                       int
 }
 
 func (v verdicts) String() string {
 	return fmt.Sprintf("peer=%s certmsg=%s ncerts=%d parse=%s c0=%s c1=%s skx=%s wf=%s sigvalid=%s signer=%s scr=%s ssr=%s sparams=%s intact=%s creq=%s clienc=%s done=%s ckx=%s fin=%s sess=%s sresume=%s sfin=%s",
 		v.peer, b01(v.certmsg), v.ncerts, b01(v.parse), v.c[0], v.c[1], b01(v.skx), b01(v.wf), b01(v.sigvalid),
 		v.signer, v.scr, v.ssr, v.sparams, b01(v.intact), b01(v.creq), b01(v.clienc), b01(v.done), b01(v.ckx), b01(v.fin),
-		v.sess, b01(v.sresume), b01(v.sfin)) + v.resumeSuffix()
+		v.sess, b01(v.sresume), b01(v.sfin)) + v.resumeSuffix() + v.randSuffix()
+}
+
+func (v verdicts) randSuffix() string {
+	s := " enckey=" + b01(v.enckey)
+	if !v.rnd {
+		return s
+	}
+	rf := "-"
+	if v.rfirst >= 0 {
+		rf = fmt.Sprint(v.rfirst)
+	}
+	return s + fmt.Sprintf(" pmsseen=%s rfirst=%s", b01(v.pmsseen), rf)
 }
 
 func (v verdicts) resumeSuffix() string {
@@ -356,6 +525,7 @@ type observation struct {
 	completed, resumed, hsComplete bool
 	class                          string
 	read                           string
+	pms                            string // "" = not printed (no logging reader)
 }
 
 func (o observation) String() string {
@@ -363,7 +533,11 @@ func (o observation) String() string {
 	if !o.completed {
 		res = "failed(" + o.class + ")"
 	}
-	return fmt.Sprintf("client=%s resumed=%s hs_complete=%s read=%s", res, b01(o.resumed), b01(o.hsComplete), o.read)
+	s := fmt.Sprintf("client=%s resumed=%s hs_complete=%s read=%s", res, b01(o.resumed), b01(o.hsComplete), o.read)
+	if o.pms != "" {
+		s += " pms=" + o.pms
+	}
+	return s
 }
 
 // classify maps the client's handshake error to the stage names the model uses (finer detail
@@ -531,14 +705,16 @@ type clientCfg struct {
 	tweak clientTweak
 	suite uint16
 	certs []keyPair
-	cache any    // tlcp.SessionCache / dtlcp.SessionCache
-	cb    string // user callbacks (see cbFuncs)
+	cache any      // tlcp.SessionCache / dtlcp.SessionCache
+	cb    string   // user callbacks (see cbFuncs)
+	rnd   *logRand // Config.Rand (nil: default)
 }
 
 type serverCfg struct {
 	suite uint16
 	certs []keyPair
 	cache any
+	rnd   string // kind of Config.Rand ("" = default)
 }
 
 // scriptPeer: the part of tlcp.VerifScript / dtlcp.VerifScript the driver needs
@@ -548,6 +724,8 @@ type scriptPeer interface {
 	SendCCS() error
 	SendAppData([]byte) error
 	PeerFinishedOK() bool
+	// an impostor's guesses at the pre-master secret (hook GuessPreMaster)
+	GuessPreMaster(n int, cand func(i int) []byte) int
 	WriteProtected() bool
 	HasMaster() bool
 	HeaderLen() int // length of the handshake header in front of the body handed to Mutate
@@ -699,6 +877,7 @@ type scriptPlan struct {
 	skxOpts    scriptOpts
 	sendCreq   bool
 	omitCert   bool
+	guess      bool
 	finMutate  func([]byte) []byte
 	// resumption impostor: when the client offers a session id, echo it and run the abbreviated
 	// handshake with this master secret (nil: never resume)
@@ -771,6 +950,10 @@ func runScript(lk link, cc clientCfg, sc serverCfg, plan scriptPlan) (runResult,
 				if err != nil || k == "Alert" {
 					return
 				}
+				if k == "ChangeCipherSpec" && !sp.HasMaster() && plan.guess && sp.GuessPreMaster(512, guessCandidate) >= 0 {
+					// the impostor found the pre-master secret by trial: it reads on like a genuine server
+					continue
+				}
 				if k == "Finished" || (k == "ChangeCipherSpec" && !sp.HasMaster()) {
 					// (without a master secret the client's protected Finished is unreadable)
 					break
@@ -815,6 +998,37 @@ func runScript(lk link, cc clientCfg, sc serverCfg, plan scriptPlan) (runResult,
 
 // ---------------------------------------------------------------------------- scenarios → cases
 
+// guessCandidate: the 512 pre-master secrets an impostor without the key can afford to try — the
+// (public) version followed by one unknown byte and zeros, or by one byte repeated.
+func guessCandidate(i int) []byte {
+	pm := make([]byte, 48)
+	pm[0], pm[1] = 0x01, 0x01
+	b := byte(i % 256)
+	if i < 256 {
+		pm[2] = b
+		return pm
+	}
+	for j := 2; j < 48; j++ {
+		pm[j] = b
+	}
+	return pm
+}
+
+// observePMS fills the tokens about the client's entropy source.
+func observePMS(v *verdicts, obs *observation, su suiteInfo, rnd *logRand, c2s, s2c flightView) {
+	if rnd == nil {
+		return
+	}
+	rnd.mu.Lock()
+	defer rnd.mu.Unlock()
+	v.rnd, v.rfirst = true, rnd.first46
+	obs.pms = "-"
+	if pm := preMasterSeen(su, c2s, s2c); pm != nil {
+		v.pmsseen = true
+		obs.pms = fmt.Sprint(longestRun(rnd.out, pm[2:]))
+	}
+}
+
 func newLink(stack string) link {
 	if stack == "dtlcp" {
 		return newDLink()
@@ -835,8 +1049,9 @@ func runScenario(cd caseDesc, sc scenario, su suiteInfo) (verdicts, observation,
 	if sc.cname != "" {
 		tw.name = sc.cname
 	}
-	cc := clientCfg{tweak: tw, suite: su.id, certs: clientCerts(su), cb: cd.cb}
-	scfg := serverCfg{suite: su.id, certs: keyPairs(sc.chain, sc.sigKey, sc.encKey)}
+	rnd := newLogRand(cd.rnd)
+	cc := clientCfg{tweak: tw, suite: su.id, certs: clientCerts(su), cb: cd.cb, rnd: rnd}
+	scfg := serverCfg{suite: su.id, certs: keyPairs(sc.chain, sc.sigKey, sc.encKey), rnd: cd.rnd}
 	signer := ""
 	if len(sc.chain) > 0 {
 		signer = sc.chain[0]
@@ -855,9 +1070,11 @@ func runScenario(cd caseDesc, sc scenario, su suiteInfo) (verdicts, observation,
 	var v verdicts
 	v.peer = sc.peer
 	v.sess = "none"
+	v.enckey = len(sc.chain) >= 2 && len(scfg.certs) >= 2 && holdsKeyOf(scfg.certs[1].key, leaves[sc.chain[1]].DER)
 	lk := newLink(cd.stack)
 	if sc.peer == "real" {
 		r := runReal(lk, cc, scfg)
+		observePMS(&v, &r.obs, su, rnd, r.c2s, r.s2c)
 		// the library's server produces a correct Finished iff it got that far: it wrote
 		// ChangeCipherSpec and a protected handshake record, and nothing was tampered with
 		fullVerdicts(&v, su, r.c2s, r.s2c, tw, su.ecdhe, ts, r.s2c.ccs && r.s2c.hsAfterCCS)
@@ -876,7 +1093,7 @@ func runScenario(cd caseDesc, sc scenario, su suiteInfo) (verdicts, observation,
 		}
 	}
 	scfg.certs = own
-	plan := scriptPlan{sendSKX: true, sendCreq: su.ecdhe, omitCert: sc.omitCert}
+	plan := scriptPlan{sendSKX: true, sendCreq: su.ecdhe, omitCert: sc.omitCert, guess: sc.guess}
 	for _, n := range sc.chain {
 		plan.chainDER = append(plan.chainDER, leaves[n].DER)
 	}
@@ -969,6 +1186,7 @@ func runScenario(cd caseDesc, sc scenario, su suiteInfo) (verdicts, observation,
 		}
 	}
 	r, so := runScript(lk, cc, scfg, plan)
+	observePMS(&v, &r.obs, su, rnd, r.c2s, r.s2c)
 	fullVerdicts(&v, su, r.c2s, r.s2c, tw, su.ecdhe, ts, so.finSent)
 	return v, r.obs, true
 }
@@ -983,6 +1201,7 @@ func runHistory(cd caseDesc, h history, su suiteInfo) (verdicts, observation, bo
 	var v verdicts
 	v.peer = "real"
 	v.sess = "none"
+	v.enckey = true
 	var ders [][]byte
 	if first.obs.completed {
 		// the certificates recorded with the session are those of connection 1
@@ -1051,6 +1270,7 @@ func runResumeImpostor(cd caseDesc, ev, peer string, su suiteInfo) (verdicts, ob
 	var v verdicts
 	v.peer = "script"
 	v.sess = "none"
+	v.enckey = true
 	first := runReal(newLink(cd.stack), clientCfg{tweak: tw, suite: su.id, certs: clientCerts(su), cache: cache},
 		serverCfg{suite: su.id, certs: keyPairs(honest, "", ""), cache: scache})
 	master := rc.sessionMaster()
@@ -1124,10 +1344,10 @@ func (cryptoRand) Read(p []byte) (int, error) { return randRead(p) }
 func enumerate(o hx.Opts) []caseDesc {
 	var out []caseDesc
 	add := func(stack, suite, scen string, skip bool) {
-		out = append(out, caseDesc{stack, suite, scen, skip, ""})
+		out = append(out, caseDesc{stack, suite, scen, skip, "", ""})
 	}
 	addCB := func(stack, suite, scen string, skip bool, cb string) {
-		out = append(out, caseDesc{stack, suite, scen, skip, cb})
+		out = append(out, caseDesc{stack, suite, scen, skip, cb, ""})
 	}
 	// documented witnesses first: F13 (resumption without re-validation), F1 (ServerKeyExchange omitted)
 	for _, st := range []string{"tlcp", "dtlcp"} {
@@ -1186,6 +1406,21 @@ func enumerate(o hx.Opts) []caseDesc {
 			}
 		}
 	}
+	// the same catalogue with entropy sources that deliver short reads (client and peer alike)
+	for _, st := range []string{"tlcp", "dtlcp"} {
+		for _, su := range suites {
+			for _, sc := range catalogue {
+				if (sc.only == "ecc" && su.ecdhe) || (sc.only == "ecdhe" && !su.ecdhe) {
+					continue
+				}
+				for _, skip := range []bool{false, true} {
+					for _, rk := range randKinds {
+						out = append(out, caseDesc{st, su.name, sc.name, skip, "", rk})
+					}
+				}
+			}
+		}
+	}
 	if o.Tier == "thorough" {
 		// every pair of client configurations over five server identities, all suites, both stacks
 		for _, st := range []string{"tlcp", "dtlcp"} {
@@ -1212,7 +1447,8 @@ func parseCase(desc string) (caseDesc, bool) {
 	s, _ := hx.KV(desc, "skip")
 	c.skip = s == "1"
 	c.cb, _ = hx.KV(desc, "cb")
-	return c, ok1 && ok2 && ok3 && validCB(c.cb)
+	c.rnd, _ = hx.KV(desc, "rand")
+	return c, ok1 && ok2 && ok3 && validCB(c.cb) && validRand(c.rnd)
 }
 
 type outLine struct {
